@@ -440,6 +440,11 @@ def run(ctx):
     # short pawn-structure games for the API monitor only (cheap: ~1.5 ms per pair): every prefix against its own continuation
     xgames, xtot = make_games(ctx, harness, driver, 1400 if quick else 12000, 0, style_pool=[16, 32, 24, 40, 8, 17, 33], short=True)
     ctx.log(f"{len(xgames)} short pawn-structure games for the bound monitor")
+    # short games that END with an en-passant capture: the last-move analysis then has two forced last moves (capture + double push),
+    # and the proof game the tool prints must still be a legal game (these finals go through -f and, first in line, through -f -o)
+    egames, _ = make_games(ctx, harness, driver, 60 if quick else 600, 0, style_pool=[66, 66, 67], short=True)
+    egames = [g for g in egames if g.stats["epcapat"] != "-" and str(len(g.moves) - 1) in g.stats["epcapat"].split(",")]
+    ctx.log(f"{len(egames)} short games ending with an en-passant capture")
 
     # ---- (c) distribution --------------------------------------------------------------------------------------
     finals = [g.fens[len(g.moves)] for g in games]
@@ -532,6 +537,11 @@ def run(ctx):
     n_final = len(pos_of)
     for g in games:
         for k in g.want: pos_of.setdefault(g.fens[k], (g, k))
+    ep_finals = []
+    for g in egames:
+        f = g.fens[len(g.moves)]
+        if f not in pos_of:
+            pos_of[f] = (g, len(g.moves)); ep_finals.append(f)
     fens = list(pos_of)
     t0 = time.time()
     ans = texelutil_filter(tu, fens, JOBS, 10 if quick else 60, chunk=4 if quick else 6)
@@ -561,6 +571,8 @@ def run(ctx):
     # prefer short games: their proof games are found within the budget, which is what feeds the certificate checker
     order = sorted(fens, key=lambda f: (pos_of[f][1] > 40, r.random()))
     sub = order[:n_it * 2 // 3] + r.sample(order[n_it * 2 // 3:], min(len(order) - n_it * 2 // 3, n_it - n_it * 2 // 3)) if len(order) > n_it else order
+    first = ep_finals[:24 if quick else 300]
+    sub = first + [f for f in sub if f not in set(first)][:max(0, n_it - len(first))]
     t0 = time.time()
     ans_it, nfin, nch = texelutil_iterated(tu, sub, JOBS, 60 if quick else 240, 75 if quick else 900)
     it_hist = {"legal": 0, "unknown": 0, "illegal": 0, "no-answer": 0, "fail": 0, "no-solution-info": 0}
